@@ -1,0 +1,57 @@
+//go:build verif
+// +build verif
+
+package spg
+
+// Verification hooks and read-only accessors, compiled only with the
+// "verif" build tag. They exist so that an external conformance harness
+// can observe the bound of every bounded draw, pin the (otherwise
+// map-ordered) alphabet order, and read unexported derived state.
+
+import (
+	"math/big"
+	"sort"
+)
+
+var verifDrawHook func(n uint32)
+
+// VerifSetDrawHook installs (or, with nil, removes) a callback that is
+// invoked with the bound n at the start of every randomUint32n(n) call.
+func VerifSetDrawHook(f func(n uint32)) { verifDrawHook = f }
+
+func verifOnDraw(n uint32) {
+	if verifDrawHook != nil {
+		verifDrawHook(n)
+	}
+}
+
+// verifCanonAlphabet sorts the alphabet so that draw index i always
+// selects the i-th smallest character.
+func verifCanonAlphabet(chars charList) charList {
+	sort.Strings(chars)
+	return chars
+}
+
+// VerifRandomUint32n exposes the bounded draw.
+func VerifRandomUint32n(n uint32) uint32 { return randomUint32n(n) }
+
+// VerifCount returns the exact number of passwords the entropy
+// computation counts for r (with required sets), as a big integer.
+func VerifCount(r CharRecipe) *big.Int {
+	r.buildCharacterList()
+	return r.n()
+}
+
+// VerifWordListState returns the kept words (in internal order) and the
+// count of words that do not change under title-casing.
+func VerifWordListState(wl *WordList) ([]string, int) {
+	if wl == nil {
+		return nil, 0
+	}
+	out := make([]string, len(wl.words))
+	copy(out, wl.words)
+	return out, wl.unCapitalizableCount
+}
+
+// VerifHasList reports whether the recipe has a word list attached.
+func VerifHasList(r WLRecipe) bool { return r.list != nil }
